@@ -152,12 +152,13 @@ fn processes(ctx: &mut Ctx) {
         let ast = ctx.scratch.join("p.json"); let bcf = ctx.scratch.join("p.bc");
         cli::simple(&exe, &["parse", f.to_str().unwrap(), "-o", ast.to_str().unwrap()]);
         cli::simple(&exe, &["compile", ast.to_str().unwrap(), "-o", bcf.to_str().unwrap()]);
-        let base = cli::simple(&exe, &["run", f.to_str().unwrap()]);
         ctx.count("programs", 1);
         ctx.nontrivial(src.as_bytes());
         let mut n = 0;
         for action in ["run", "execute"] {
             let input = if action == "run" { f.clone() } else { bcf.clone() };
+            // the flags must be inert for each action on its own (C16 does not relate run to execute)
+            let base = cli::simple(&exe, &[action, input.to_str().unwrap()]);
             for log in [None, Some("log.csv"), Some("new/dir/log.csv")] {
                 for size in [None, Some("0"), Some("1"), Some("4096")] {
                     n += 1;
@@ -198,8 +199,8 @@ fn cli_case(ctx: &mut Ctx, stmts: &[E]) {
     let ast = ctx.scratch.join("a.json"); let bcf = ctx.scratch.join("a.bc");
     cli::simple(&exe, &["parse", f.to_str().unwrap(), "-o", ast.to_str().unwrap()]);
     cli::simple(&exe, &["compile", ast.to_str().unwrap(), "-o", bcf.to_str().unwrap()]);
-    let base = cli::simple(&exe, &["run", f.to_str().unwrap()]);
     for (action, input) in [("run", f.clone()), ("execute", bcf.clone())] {
+        let base = cli::simple(&exe, &[action, input.to_str().unwrap()]);
         let lp = ctx.scratch.join(format!("{}.csv", action));
         let _ = std::fs::remove_file(&lp);
         let res = cli::simple(&exe, &[action, input.to_str().unwrap(), "--heap-log", lp.to_str().unwrap(), "--heap-size", "1"]);
